@@ -137,6 +137,21 @@ def run_cases(ck, res, n_cases, n_interval):
             got = unsafe_diff(u, env['t'], order=order)
             gv = [float(v) for v in got.detach().reshape(-1)]
             ck.add_case((tname,))
+            # `order` given as a 0-dim tensor / numpy scalar array and reused for a second call (a module-level constant): the
+            # caller's object must not be consumed, the second call must equal the first
+            if order >= 2:
+                import numpy as _np
+                for okind, oobj in (('torch.tensor', torch.tensor(order)), ('numpy.array', _np.array(order))):
+                    try:
+                        first = unsafe_diff(u, env['t'], order=oobj)
+                        second = unsafe_diff(u, env['t'], order=oobj)
+                        ok2 = torch.allclose(first.detach(), got.detach(), rtol=1e-12, atol=1e-12) and torch.allclose(second.detach(), got.detach(), rtol=1e-12, atol=1e-12) \
+                            and int(oobj) == order
+                    except Exception as ex:
+                        ok2 = None      # an order object the implementation refuses is not this property's business
+                    if ok2 is False:
+                        ck.fail('unsafe_diff/order-object-reused', f'unsafe_diff with order={okind}({order}) passed twice: the second call (or the caller\'s order object) changed',
+                                {'operand': kname, 'order': order, 'order_kind': okind, 'points': pts})
             # the documented deprecated spelling `x=` of the first operand must give the same result through all three
             # entry points (the keyword-renaming decorator is assumed to be the identity by the translator; that assumption
             # is checked structurally, and behaviourally here)
